@@ -772,12 +772,18 @@ impl Sim {
                 self.op();
             }
             Step::SetParent { slot, parent } => {
-                if !self.cfg.children || (self.cfg.vis != 0 && !self.cfg.children_any_vis) || slot >= nslots || parent >= slot {
+                if !self.cfg.children || slot >= nslots || parent >= slot {
                     return;
                 }
                 let (Some(e), Some(p)) = (self.slots[slot], self.slots[parent]) else { return };
                 if !self.marked[parent] {
                     return;
+                }
+                // generator soundness under visibility lists: a client that sees an entity sees its parent
+                // (hiding a parent from a client that still sees a child would make the client's own recursive despawn
+                // remove the child: finding family F17)
+                if self.cfg.vis != 0 && !self.cfg.children_any_vis && (0..nclients).any(|c| self.clients[c].connected && self.visible_to(c, slot) && !self.visible_to(c, parent)) {
+                    return self.exclude("child_visible_without_its_parent");
                 }
                 if self.parents[slot].is_some() && !self.cfg.no_exclusions {
                     return self.exclude("F17b_direct_reparent");
@@ -865,6 +871,15 @@ impl Sim {
                 let Some(e) = self.slots[slot] else { return };
                 if self.locked[slot] && !self.cfg.no_exclusions {
                     return self.exclude("F20_locked_slot");
+                }
+                if self.cfg.children && !self.cfg.children_any_vis {
+                    // keep "who sees an entity sees its parent" true
+                    let hides_parent = !visible && (0..nslots).any(|ch| self.parents[ch] == Some(slot) && self.slots[ch].is_some() && self.visible_to(client, ch));
+                    let believed_child = !visible && (0..nslots).any(|ch| self.sent_parents[ch] == Some(slot) && self.slots[ch].is_some() && self.visible_to(client, ch));
+                    let shows_child = visible && self.parents[slot].is_some_and(|p| !self.visible_to(client, p));
+                    if hides_parent || believed_child || shows_child {
+                        return self.exclude("child_visible_without_its_parent");
+                    }
                 }
                 if self.cfg.refs {
                     // keep "target visible to whoever sees the referrer" true
